@@ -127,6 +127,7 @@ pub struct ObsEntry {
     pub is_storage: bool,
     pub is_root: bool,
     pub len: u64,
+    pub is_empty: bool,
     pub clsid: [u8; 16],
     pub state: u32,
     pub created: Result<u64, String>,
@@ -141,6 +142,7 @@ pub fn obs_entry(e: &cfb::Entry) -> ObsEntry {
         is_storage: e.is_storage(),
         is_root: e.is_root(),
         len: e.len(),
+        is_empty: e.is_empty(),
         clsid: *e.clsid().as_bytes(),
         state: e.state_bits(),
         created: systime_to_ft(e.created()),
@@ -178,6 +180,9 @@ pub fn cmp_entry(exp: &EntryInfo, obs: &ObsEntry, listing: bool) -> Result<(), S
         if l != obs.len {
             return Err(format!("len: expected {}, got {}", l, obs.len));
         }
+    }
+    if obs.is_empty != (obs.len == 0) {
+        return Err(format!("is_empty() = {} but len() = {}", obs.is_empty, obs.len));
     }
     if exp.clsid != obs.clsid {
         return Err(format!("clsid: expected {}, got {}", hex(&exp.clsid), hex(&obs.clsid)));
@@ -246,10 +251,20 @@ pub fn open_options(max_buf: Option<u32>, strict: bool) -> OpenOptions {
 
 impl Engine {
     pub fn new(version: u8, max_buf: Option<u32>, pool: Vec<String>, oracles: Oracles) -> Result<Engine, Fail> {
+        let mut precreated = false;
         let mut io = match &oracles.file_path {
             Some(p) => {
-                let f = std::fs::OpenOptions::new().read(true).write(true).create(true).truncate(true).open(p).map_err(|e| Fail::new("harness|file", e.to_string()))?;
-                Io::from_file(f, p.clone())
+                if version == 4 {
+                    // the crate's own path-based entry point creates the (version 4) file
+                    let made = guard("cfb::create", || cfb::create(p).map(|c| drop(c)))?;
+                    made.map_err(|e| Fail::new("mismatch|cfb::create|path|Ok|Err", format!("cfb::create({:?}) failed: {}", p, e)))?;
+                    precreated = true;
+                    let f = std::fs::OpenOptions::new().read(true).write(true).open(p).map_err(|e| Fail::new("harness|file", e.to_string()))?;
+                    Io::from_file(f, p.clone())
+                } else {
+                    let f = std::fs::OpenOptions::new().read(true).write(true).create(true).truncate(true).open(p).map_err(|e| Fail::new("harness|file", e.to_string()))?;
+                    Io::from_file(f, p.clone())
+                }
             }
             None => Io::new(),
         };
@@ -259,8 +274,11 @@ impl Engine {
             io = io.with_ctl(c.clone());
         }
         let peer = io.peer();
-        let cfb = guard("create", || Self::create_lib(io, version, max_buf))?
-            .map_err(|e| Fail::new("mismatch|create|fresh|Ok|Err", format!("create failed: {}", e)))?;
+        let cfb = if precreated {
+            guard("open", || open_options(max_buf, false).open_with(io))?.map_err(|e| Fail::new("mismatch|open|after_cfb_create|Ok|Err", format!("opening the file made by cfb::create failed: {}", e)))?
+        } else {
+            guard("create", || Self::create_lib(io, version, max_buf))?.map_err(|e| Fail::new("mismatch|create|fresh|Ok|Err", format!("create failed: {}", e)))?
+        };
         Ok(Engine {
             cfb: Some(cfb),
             io: peer,
